@@ -102,7 +102,13 @@ ShiftOK(e) ==
   /\ \A k \in 1..Len(e.z_margins) : IsPos(e.z_margins[k])
   /\ e.zero_cone_slack_is_zero
 
+\* a few ulps inside the boundary of a second-order cone, where the exact distance is a floating-point number:
+\* "the exact distance to the boundary" up to a few units in the last place
+NearBoundaryOK(e) == /\ FSame(e.alpha_s, e.alpha_z)
+                     /\ (FSame(e.alpha_s, e.exact) \/ UlpWithin(e.alpha_s, e.exact, 16))
+
 EventOK(e) == CASE e.ev = "Step" -> StepEventOK(e)
+                [] e.ev = "NearBoundary" -> NearBoundaryOK(e)
                 [] e.ev = "Backtrack" -> BacktrackOK(e)
                 [] e.ev = "Composite" -> CompositeOK(e)
                 [] e.ev = "Shift" -> ShiftOK(e)
